@@ -489,6 +489,13 @@ func c18scriptChild(raw json.RawMessage, scratch string) {
 		}
 		wk.ChildCase(i, prog)
 		runBacklogScript(r, prog, scratch)
+		if i == a.Start {
+			sp := *prog
+			if len(sp.Ops) > 10 {
+				sp.Ops = sp.Ops[:10]
+			}
+			r.Sample(map[string]interface{}{"mode": "scripted", "program_first_ops": sp, "total_ops": len(prog.Ops)})
+		}
 	}
 	wk.ChildDone(r)
 }
@@ -705,6 +712,9 @@ func c18histChild(raw json.RawMessage, scratch string) {
 		}
 		wk.ChildCase(i, hc)
 		runHistory(r, hc, scratch)
+		if i == a.Start {
+			r.Sample(map[string]interface{}{"mode": "porcupine-history", "case": hc})
+		}
 		// ring-crossing writes: interval oracle with concurrent DataRange/ReadAt observers
 		runCrossing(r, hc, scratch, rng)
 	}
